@@ -60,6 +60,7 @@ func runC20(c *Ctx, r *Report) {
 	c20TeeSplit(c, r)
 	c20WriterState(c, r, fn)
 	c20LRULinks(c, r)
+	c20SplitPassThrough(c, r)
 }
 
 // ---- R20.1 -------------------------------------------------------------------
@@ -1082,4 +1083,120 @@ func c20LRULinks(c *Ctx, r *Report) {
 			fmt.Sprintf("%s rewrites links of %s (first at %s) but never stores %s.%s: when the node it moves is at that end of the list the end pointer goes stale", SSAName(fn), node.Obj().Name(), c.Rel(first), owner.Obj().Name(), strings.Join(missing, " or ")))
 	}
 	r.Floor("R20.9", "functions that rewrite recency-list links", n, 2)
+}
+
+// c20SplitPassThrough (R20.10): with -v, split passes every record on.
+func c20SplitPassThrough(c *Ctx, r *Report) {
+	r.Rule("R20.10", "split -v passes every record on: in each per-mode record function of the split verb, every path through the not-end-of-stream branch to a successful return consults the pass-through option (the receiver's boolean field that guards the append to the output list) or appends to the output list — an early return for one kind of record (one lacking the group-by field) silently takes those records out of the main stream")
+	n := 0
+	for _, fn := range funcsInFile(c, "pkg/transformers", "split.go") {
+		if fn.Signature.Recv() == nil || len(fn.Params) == 0 {
+			continue
+		}
+		var outlist ssa.Value
+		for _, p := range fn.Params {
+			ts := p.Type().String()
+			if strings.HasPrefix(ts, "*[]*") && strings.HasSuffix(ts, "types.RecordAndContext") {
+				outlist = p
+			}
+		}
+		if outlist == nil {
+			continue
+		}
+		// the option: a bool field of the receiver whose true edge dominates a store to the output list
+		optField := -1
+		for _, b := range fn.Blocks {
+			for _, in := range b.Instrs {
+				st, ok := in.(*ssa.Store)
+				if !ok || st.Addr != outlist {
+					continue
+				}
+				for _, g := range GuardsAt(b) {
+					if !g.Polarity {
+						continue
+					}
+					if ld, ok := g.Cond.(*ssa.UnOp); ok && ld.Op == token.MUL {
+						if fa, ok := ld.X.(*ssa.FieldAddr); ok && fa.X == ssa.Value(fn.Params[0]) {
+							optField = fa.Field
+						}
+					}
+				}
+			}
+		}
+		if optField < 0 {
+			continue // not a per-mode record function (Transform delegates)
+		}
+		// the not-end-of-stream branch
+		var start *ssa.BasicBlock
+		for _, b := range fn.Blocks {
+			iff, ok := b.Instrs[len(b.Instrs)-1].(*ssa.If)
+			if !ok {
+				continue
+			}
+			cond, pol := stripNot(iff.Cond, true)
+			if base, name, ok := fieldLoadName(cond); ok && name == "EndOfStream" && isParamOf(base, fn) {
+				if pol {
+					start = b.Succs[1]
+				} else {
+					start = b.Succs[0]
+				}
+			}
+		}
+		if start == nil {
+			continue
+		}
+		n++
+		consults := func(b *ssa.BasicBlock) bool {
+			for _, in := range b.Instrs {
+				switch x := in.(type) {
+				case *ssa.FieldAddr:
+					if x.X == ssa.Value(fn.Params[0]) && x.Field == optField {
+						return true
+					}
+				case *ssa.Store:
+					if x.Addr == outlist {
+						return true
+					}
+				}
+			}
+			return false
+		}
+		bad := ""
+		seen := map[*ssa.BasicBlock]bool{}
+		var walk func(b *ssa.BasicBlock)
+		walk = func(b *ssa.BasicBlock) {
+			if bad != "" || seen[b] {
+				return
+			}
+			seen[b] = true
+			if consults(b) {
+				return
+			}
+			if ret, ok := b.Instrs[len(b.Instrs)-1].(*ssa.Return); ok {
+				// a return of a call's error result may be nil: it counts as a successful return
+				if nres := len(ret.Results); nres > 0 && isErrorType(ret.Results[nres-1].Type()) {
+					if k, isConst := ret.Results[nres-1].(*ssa.Const); isConst && !k.IsNil() {
+						return
+					}
+					if _, isPhiOrCall := ret.Results[nres-1].(*ssa.Const); !isPhiOrCall {
+						// err variable: fine only if this block is on the err != nil edge
+						for _, g := range GuardsAt(b) {
+							if cmp, ok := g.Cond.(*ssa.BinOp); ok && cmp.Op == token.NEQ && g.Polarity && cmp.X == ret.Results[nres-1] {
+								return
+							}
+						}
+					}
+				}
+				bad = c.Rel(ret.Pos())
+				return
+			}
+			for _, s := range b.Succs {
+				walk(s)
+			}
+		}
+		walk(start)
+		r.Check(bad == "", "R20.10", SSAName(fn), c.Rel(fn.Pos()), "every successful path consults the pass-through option or appends",
+			fmt.Sprintf("%s can return successfully at %s for a record without having consulted the pass-through option or appended the record to the output: with -v such records leave the main stream", SSAName(fn), bad))
+	}
+	r.Floor("R20.10", "per-mode record functions of split", n, 3)
 }
